@@ -870,7 +870,7 @@ func structFieldVar(t types.Type, idx int) *types.Var {
 // backSlice collects the atoms the value v is computed from (intraprocedural, through
 // local allocs: every store into the alloc contributes).
 func backSlice(v ssa.Value, atoms *sliceAtoms, seen map[ssa.Value]bool, depth int) {
-	if v == nil || seen[v] || depth > 60 {
+	if v == nil || seen[v] || depth > bound(60) {
 		return
 	}
 	seen[v] = true
